@@ -212,7 +212,7 @@ func runQuiescent(c *Ctx, prop string) {
 		}
 		switch prop {
 		case "C03":
-			o.CostMode = []string{"key", "one", "zero", "key", "random"}[i%5]
+			o.CostMode = []string{"key", "keyskew", "zero", "one", "keyskew", "random"}[i%6]
 			if o.CostMode == "zero" {
 				o.Cfg.CostFn = "keycost"
 			}
@@ -232,6 +232,14 @@ func runQuiescent(c *Ctx, prop string) {
 			unit += 56
 		}
 		o.Cfg.MaxCost = unit * lab.Pick(rng, []int64{1, int64(max(1, nk/8)), int64(nk / 2), int64(nk * 2)})
+		if o.CostMode == "keyskew" {
+			// many cheap residents and an occasional item costing as much as dozens of them: one admission needs many victims
+			o.Cfg.IgnoreInternalCost = true
+			o.Cfg.MaxCost = lab.Pick(rng, []int64{50, 60, 100, int64(nk)})
+			if o.Cfg.MaxCost < 50 {
+				o.Cfg.MaxCost = 50
+			}
+		}
 		o.Name = fmt.Sprintf("%s-buf%d-cap%d-nk%d-cost%s-int%v-m%v", strings.ToLower(prop), o.Cfg.SetBuf, o.Cfg.MaxCost, nk, o.CostMode, !o.Cfg.IgnoreInternalCost, o.Cfg.Metrics)
 		o.OpsPerPhase = c.N(4000, 8000) / o.Workers
 		c.J.Case(o)
@@ -434,6 +442,74 @@ func runC04Known(c *Ctx) {
 			})
 			c.R.DistinctKey("%s", name)
 			c.R.Obs("kf1_directed_cases", 1)
+		}
+	}
+}
+
+// ---------------------------------------------------------------- C03 (directed: one admission needing many victims)
+
+func init() { registry["C03D"] = runC03Directed }
+
+// runC03Directed fills a cache exactly with n unit-cost residents (optionally with access frequencies), then
+// sets one newcomer of cost c (1..MaxCost and MaxCost+1) and checks the accounting after Wait.
+func runC03Directed(c *Ctx) {
+	c.R.Rule = "directed: cache filled exactly with n residents of cost 1 (n = MaxCost in {8, 40, 100}), optionally hot residents, then one newcomer of cost c for every c in 1..MaxCost+1; after Wait: RemainingCost() >= 0, == MaxCost - sum of accounted costs, newcomer admitted only if its cost <= MaxCost; distinct by (MaxCost, c, hot residents, internal cost)"
+	idx := 0
+	for _, m := range []int{8, 40, 100} {
+		for cost := 1; cost <= m+1; cost++ {
+			for _, hot := range []bool{false, true} {
+				idx++
+				if idx%c.NParts != c.Part {
+					continue
+				}
+				c.R.Eval(1)
+				name := fmt.Sprintf("c03d-max%d-cost%d-hot%v", m, cost, hot)
+				c.J.Case(name)
+				l, err := lab.NewLab(lab.CacheCfg{NumCounters: 2000, MaxCost: int64(m), BufferItems: 1, IgnoreInternalCost: true, KeyKind: "uint64", NKeys: m + 1})
+				if err != nil {
+					c.R.Inconc(1)
+					continue
+				}
+				cl := l.NewClient()
+				for k := 0; k < m; k++ {
+					cl.Set(k, cl.NextVal(k), 1, 0)
+				}
+				cl.Wait()
+				if hot {
+					// the newcomer is at least as frequent as everything else, so it is not turned away
+					l.C.Increment(l.Hashes[m][0], 8)
+				}
+				cl.Set(m, cl.NextVal(m), int64(cost), 0)
+				cl.Wait()
+				l.C.Pause()
+				s := l.C.Snapshot()
+				rc := l.C.RemainingCost()
+				l.C.Resume()
+				var sum int64
+				for _, x := range s.KeyCosts {
+					sum += x
+				}
+				_, admitted := s.KeyCosts[l.Hashes[m][0]]
+				bad := func(sig, d string) {
+					c.R.Violate("C03/"+sig, fmt.Sprintf("[%s] %s", name, d), name)
+				}
+				if rc < 0 {
+					bad("negative-remaining", fmt.Sprintf("after admitting a newcomer of cost %d into a cache of %d unit-cost residents (MaxCost %d): RemainingCost()=%d, %d keys accounted with total cost %d", cost, m, m, rc, len(s.KeyCosts), sum))
+				}
+				if rc != s.MaxCost-sum || s.Used != sum {
+					bad("remaining-identity", fmt.Sprintf("RemainingCost()=%d, MaxCost=%d, sum of accounted costs=%d, used=%d", rc, s.MaxCost, sum, s.Used))
+				}
+				if admitted && int64(cost) > s.MaxCost {
+					bad("oversized-admitted", fmt.Sprintf("newcomer of cost %d admitted with MaxCost %d", cost, s.MaxCost))
+				}
+				c.R.Obs("directed_admissions", 1)
+				if admitted {
+					c.R.Obs("directed_admitted", 1)
+				}
+				c.R.DistinctKey("%s/adm%v", name, admitted)
+				l.C.Close()
+				l.Forget()
+			}
 		}
 	}
 }
